@@ -1579,7 +1579,9 @@ def compile_try_expression(compiler, expr, root, body, catchers, orelse, finalbo
 
     returnable = Result(
         expr=asty.Name(expr, id=return_var.id, ctx=ast.Load()),
-        temp_variables=[return_var],
+        # With a `finally` clause, user code runs after the result is
+        # stored, so the variable mustn't be renamed to a user variable.
+        temp_variables=[] if finalbody else [return_var],
     )
     body += (
         body.expr_as_stmt()
